@@ -172,8 +172,16 @@ m('c17-literal-block', 'C17', G, "            formatted_lines.append('# %s' % li
 m('c17-alias-uncommented', 'C17', G, "            text += ('# \"%(old_name)s\": \"rule:%(name)s\"\\n' %", "            text += ('\"%(old_name)s\": \"rule:%(name)s\"\\n' %", 'alias line emitted un-commented')
 
 # ---- C18 ------------------------------------------------------------------
-m('c18-revert-d7', 'C18', G, "                policies.pop(rule_default.deprecated_rule.name, None)\n                if old_rule == 'rule:%s' % rule_default.name:\n                    # The old name was only an alias of the new policy;\n                    # carrying it over would make the policy reference itself.\n                    continue\n",
+m('c18-revert-d7', 'C18', G, "                policies.pop(rule_default.deprecated_rule.name, None)\n                alias = 'rule:%s' % rule_default.name\n                if str(_parser.parse_rule(old_rule)) == alias:\n                    # The old name was only an alias of the new policy, in\n                    # whichever spelling (the enforcer compares the parsed\n                    # rule as well); carrying it over would make the policy\n                    # reference itself.\n                    continue\n",
   "                policies.pop(rule_default.deprecated_rule.name, None)\n", 'revert alias part of fix D7')
+m('c18-revert-alias-spelling', 'C18', G, "                if str(_parser.parse_rule(old_rule)) == alias:\n", "                if old_rule == alias:\n",
+  'revert fix f45217e: only the literal text rule:<new> is recognised as an alias by the upgrade tool')
+m('c18-revert-astral', 'C18', G, "    return '{}: {}'.format(_quote_text(name), _quote_text(check_str))\n",
+  "    return '{}: {}'.format(jsonutils.dumps(name), jsonutils.dumps(check_str))\n",
+  'revert fix dcc0587: characters outside the basic plane are written as surrogate-pair escapes again')
+m('c17-revert-astral', 'C17', G, "    return '{}: {}'.format(_quote_text(name), _quote_text(check_str))\n",
+  "    return '{}: {}'.format(jsonutils.dumps(name), jsonutils.dumps(check_str))\n",
+  'revert fix dcc0587 (sample generator side)')
 m('c18-revert-d8', 'C18', G, "    if not isinstance(check_str, str):\n        # A rule in the legacy list-of-lists syntax; write out the equivalent\n        # check string\n        check_str = str(_parser.parse_rule(check_str))\n", "", 'revert list part of fix D8')
 m('c18-generator-prefers-default', 'C18', G, "                        if name not in enforcer.file_rules]", "                        if name not in enforcer.file_rules or name.endswith('split1')]", 'generator emits the registered default after a file rule for one name (last wins)')
 m('c18-convert-comment-override', 'C18', G, "            if file_rule == default_rule:\n                rule_text = _format_rule_default_yaml(\n                    file_rule, add_deprecated_rules=False)",
@@ -222,7 +230,7 @@ EQUIVALENT = {
     'c03-default-not-in-self': 'the recursive lookup raises KeyError one level down; the decision is still deny',
     'c08-true-on-mismatch': 'a scope mismatch is impossible when all three scope types are declared',
     'c11-old-over-new': 'the dropped test is unreachable: load_rules never merges a name that is already in the rule store',
-    'c18-revert-d8': 'without the conversion the list is written as a JSON/YAML list, which loads back as the same rule',
+
     'c12-register-no-copy': 'registering without a copy is invisible unless something mutates the object',
     'c20-iterate-copy': 'an improvement: removes one known finding; exit must stay 0',
     'c06-bypass-default': 'dict.__getitem__ on a dict subclass still honours __missing__, so the default-rule fallback is not bypassed',
